@@ -66,6 +66,7 @@ type CaseA struct {
 	Decoy bool              `json:"decoy,omitempty"` // absent sources exist/are called, but define another key
 	Name  string            `json:"name,omitempty"`  // map data only: the key's name when it is not "kv" (names of default template functions)
 	Site  string            `json:"site,omitempty"`  // where the key is read: "" the page (no layouts) | chain-page | chain-mid | chain-outer: the page, the middle or the outer layout of the chain page.vuego -> layouts/post.vuego -> layouts/base.vuego (Have may then contain "lmid" / "louter": the key in the front-matter of the middle / outer layout)
+	Read  string            `json:"read,omitempty"`  // the name the template / Get reads when it is not the key: a CASE VARIANT of the key or of the struct's Go field name, which no source defines
 	Store string            `json:"store,omitempty"` // how the files are stored: "" one filesystem | an OverlayFS layout, see stores
 	Ext   string            `json:"ext,omitempty"`   // names of the data files: "" a.yml+b.yml | yaml+yml | yml+yaml | yaml+yaml | samestem (c.yaml+c.yml)
 }
@@ -121,6 +122,25 @@ var funcNames = []string{"title", "default", "escape", "json", "upper", "len", "
 
 func isNull(v vals.V) bool { return v.K == "nil" }
 
+// read is the name the template and Get read: the key, or (Read) a case variant of it that no
+// source defines. Variable names are exact: a struct defines the Go names and JSON names of its
+// fields, a map its keys, a YAML file its keys - not other spellings of them.
+func (c CaseA) read() string {
+	if c.Read != "" {
+		return c.Read
+	}
+	return c.key()
+}
+
+// definedNames are the exact names under which the case's sources define the value.
+func (c CaseA) definedNames() []string {
+	out := []string{c.key()}
+	if c.Fill != "map" && (c.Addr == "tag" || c.Addr == "tagopt" || c.Addr == "field") {
+		out = append(out, "kv", "Fv")
+	}
+	return out
+}
+
 // winner is the reference model: the first present source in the documented order.
 //
 // Layout chains (docs/themes.md: each layout renders and passes its output to the parent layout
@@ -128,6 +148,14 @@ func isNull(v vals.V) bool { return v.K == "nil" }
 // its OWN front-matter first and then what the page sees (page front-matter > Assign > Fill >
 // data/*.yml > theme.yml). The front-matter of another layout of the chain is not a source for it.
 func (c CaseA) winner() (string, vals.V, bool) {
+	if c.Read != "" {
+		for _, n := range c.definedNames() {
+			if n == c.Read {
+				return "", vals.V{}, false // malformed (rejected by checkA); keep the model total
+			}
+		}
+		return "", vals.V{}, false // the name read is defined by no source
+	}
 	own := map[string]string{"chain-mid": "lmid", "chain-outer": "louter"}[c.Site]
 	if own != "" && c.has(own) {
 		return own, c.Vals[own], true
@@ -429,7 +457,7 @@ func (c CaseA) probeValues(src string) [2]string {
 
 // body builds the page body for the read position.
 func (c CaseA) body() string {
-	k := c.key()
+	k := c.read()
 	wsrc, wv, any := c.winner()
 	var b strings.Builder
 	b.WriteString("<div>\n")
@@ -599,6 +627,22 @@ func checkA(c CaseA) error {
 	if c.Site != "" && (c.Decoy || (c.Pos == "get" && c.Site != "chain-page")) {
 		return fmt.Errorf("malformed case: chain sites take no decoys, and Get reads the page")
 	}
+	if c.Read != "" {
+		ok := false
+		for _, n := range append(c.definedNames(), "Kv", "Fv", "kv") {
+			if strings.EqualFold(n, c.Read) {
+				ok = true
+			}
+		}
+		for _, n := range append(c.definedNames(), "extra", "Extra", "Hidden", "Plain", "zother", "Zother") {
+			if n == c.Read {
+				ok = false
+			}
+		}
+		if !ok || c.Site != "" || c.Name != "" {
+			return fmt.Errorf("malformed case: read %q must be a case variant of the key / field name that is not itself a defined name", c.Read)
+		}
+	}
 	k := c.key()
 	wsrc, wv, any := c.winner()
 	fsys, err := buildFS(c.files(), c.Store, []string{k})
@@ -630,6 +674,9 @@ func checkA(c CaseA) error {
 		tpl = tpl.Assign("zother", "decoyassign")
 	}
 	desc := fmt.Sprintf("key %q, sources %v (%s data addressed by %s), expected winner %q", k, c.Have, c.Fill, c.Addr, wsrc)
+	if c.Read != "" {
+		desc = fmt.Sprintf("reading %q, a name no source defines (the sources %v define %v exactly; %s data), expected: undefined", c.Read, c.Have, c.definedNames(), c.Fill)
+	}
 
 	// every recognisable value that must NOT be seen: the values of the losing sources
 	losers := func(got string) error {
@@ -651,6 +698,9 @@ func checkA(c CaseA) error {
 					if s == "lmid" || s == "louter" {
 						return fmt.Errorf("%s (read site %s): saw %q, which contains the value from the front-matter of another layout of the chain (%s), which is not a source for this file", desc, c.Site, got, s)
 					}
+					if c.Read != "" {
+						return fmt.Errorf("%s: saw %q, the value source %q gives to the differently spelled name", desc, got, s)
+					}
 					return fmt.Errorf("%s: saw %q, which contains the value given by the lower-precedence source %q", desc, got, s)
 				}
 			}
@@ -659,7 +709,7 @@ func checkA(c CaseA) error {
 	}
 
 	if c.Pos == "get" {
-		got := tpl.Get(k)
+		got := tpl.Get(c.read())
 		if err := losers(got); err != nil {
 			return fmt.Errorf("Get: %w", err)
 		}
@@ -885,6 +935,28 @@ func enumA(f func(c CaseA, excluded string) bool) {
 				have = append(have, s)
 			}
 		}
+		// names that differ only in case from the key / the struct's field names: defined nowhere
+		for _, fm := range [][2]string{{"map", "key"}, {"struct", "name"}, {"ptr", "name"}, {"struct", "tag"}, {"ptr", "tag"}, {"struct", "tagopt"}, {"ptr", "tagopt"}} {
+			variants := []string{"KV", "Kv"}
+			switch fm[1] {
+			case "name":
+				variants = []string{"kv", "KV", "kV"}
+			case "tag", "tagopt":
+				variants = []string{"fv", "FV", "KV", "Kv"}
+			}
+			vs := map[string]vals.V{}
+			for _, s := range have {
+				vs[s] = canon("string", s, 0)
+			}
+			for _, rd := range variants {
+				for _, pos := range []string{"interp", "vif", "attr", "get"} {
+					c := CaseA{Have: have, Vals: vs, VType: "string", Ctor: "newfs", Fill: fm[0], Addr: fm[1], Pos: pos, Read: rd}
+					if !f(c, excludedA(known, c)) {
+						return
+					}
+				}
+			}
+		}
 		// the same files stored in the layers of an OverlayFS
 		for _, store := range stores {
 			vs := map[string]vals.V{}
@@ -1077,6 +1149,12 @@ func classifyA(c CaseA) (bool, []string) {
 	}
 	if c.Name != "" {
 		cls = append(cls, "key-named-like-a-template-function")
+	}
+	if c.Read != "" {
+		cls = append(cls, "reads-a-case-variant-no-source-defines")
+		if c.Fill != "map" && c.has("fill") {
+			cls = append(cls, "case-variant-of-a-filled-struct-field")
+		}
 	}
 	if c.Store != "" {
 		cls = append(cls, "store=overlay/"+c.Store)
